@@ -13,6 +13,19 @@ def c12_sim(sc, io):
         for o in ob["orders"]:
             if o["trade_status"] == "Pending":
                 res.append(("C12-trade-pending", "trade of %s is Pending at a strategy call" % o["o"], {"pt": ob["pt"], "order": o["o"]}))
+    # an order still Cancelling / Updating / Replacing at the end of the run although its market had an update later than the request time plus the
+    # latency (plus the largest bet delay for a replace): the answer was due and left the order where it was
+    cfg = sc["config"]
+    lat = {"Cancelling": cfg.get("cancel_latency", 0.17), "Updating": cfg.get("update_latency", 0.15), "Replacing": cfg.get("replace_latency", 0.28)}
+    for o in io["final"]:
+        if o["status"] in lat and o.get("stat_t") is not None:
+            m = next((m for m in sc["markets"] if m["id"] == o["market"]), None)
+            if m is None:
+                continue
+            delay = max([u.get("delay", 0) for u in m["updates"]] or [0]) if o["status"] == "Replacing" else 0
+            due = o["stat_t"] + lat[o["status"]] * 1000 + delay * 1000
+            if any(u["pt"] > due for u in m["updates"]) and not io.get("error"):
+                res.append(("C12-stranded-sim", "order %s is left %s at the end of the run: requested at %s, its market had an update after %s" % (o["o"], o["status"], o["stat_t"], due), {"order": o["o"], "log": o["log"], "update_resp": o.get("update_resp"), "cancel_resp": o.get("cancel_resp")}))
     return res
 
 
